@@ -578,3 +578,40 @@ def rule_lenpfx(chk, prog, rule="LENPFX", files=("src/common/frames.rs", "src/co
                             "%s writes a %s length prefix that is not the byte length of the field that follows it (%s): the decoder "
                             "cuts the field at the wrong place and reads the remainder as the next field (a different host / port)" % (f.path, dk, why))
     chk.floor(rule, n, need, "length-prefix sites in the frame and SOCKS encoders")
+
+
+_READ_BUFFER_CTOR = re.compile(
+    r"^tokio::io::util::buf_reader::BufReader::<R>::(new|with_capacity)$|^tokio::io::util::buf_stream::BufStream::<RW>::(new|with_capacity)$|"
+    r"^tokio_util::codec::framed_read::FramedRead::<T, D>::(new|with_capacity)$|^tokio_util::codec::framed::Framed::<T, U>::(new|with_capacity|from_parts)$|"
+    r"^tokio_util::io::reader_stream::ReaderStream::<R>::(new|with_capacity)$|^tokio::io::util::lines::|^tokio_stream::wrappers::lines::LinesStream")
+_FILE_TY = re.compile(r"tokio::fs::file::File|std::fs::File")
+
+
+def rule_buf_once(chk, prog, rule="BUF-ONCE"):
+    """A connection has exactly one read buffer: the BufReader that `make_buffered_stream` puts around the socket when the context is
+    created, whose read-ahead the relay drains (H1).  Any other buffering reader constructed over a stream -- BufReader / BufStream /
+    FramedRead / Framed / ReaderStream -- reads ahead into a buffer of its own, and whatever it holds when it is dropped (bytes the
+    client sent right behind its request head) never reaches the tunnel.  Sites = constructor calls of such readers in the crate;
+    allowed: the one in make_buffered_stream, and readers over files."""
+    n = 0
+    home = 0
+    for f in sorted(prog.fns.values(), key=lambda x: x.key):
+        if f.crate != "redproxy_rs":
+            continue
+        for c in f.calls:
+            if not _READ_BUFFER_CTOR.search(c.path or ""):
+                continue
+            inner = f.local_ty_s(op_base(c.args[0])) if c.args and op_base(c.args[0]) is not None else ""
+            n += 1
+            in_home = re.search(r"^context::make_buffered_stream$", f.path) is not None
+            over_file = bool(_FILE_TY.search(inner))
+            ok = in_home or over_file
+            home += 1 if in_home else 0
+            chk.instance(rule, c.where(), "%s in %s over %s" % (short(c.path), f.path, inner[:60]), ok,
+                         "the connection's own buffer" if in_home else ("a file" if over_file else "a second read buffer over a stream"))
+            if not ok:
+                chk.finding(rule, f.key, short(c.path), "", c.where(),
+                            "%s wraps a stream (%s) in another buffering reader (%s): the reader fills its own buffer from the socket, and what is "
+                            "still in it when it goes out of scope -- payload the client sent right behind its request, before any reply -- is "
+                            "dropped instead of being relayed (and an end-of-stream that follows is relayed without it)" % (f.path, inner[:80], short(c.path)))
+    chk.floor(rule, home, 1, "the read buffer created by make_buffered_stream")
